@@ -60,7 +60,7 @@ def judge_c06(ws, w, acc, order):
             acc.add("evaluations")
             res, val = decode_with(cls, src, len(prefix))
             case = {"class": ws.path, "wire": w, "cut": cut, "source": kind, "len": len(enc)}
-            if res == "raised" and type(val) is BufferUnderflow:
+            if res == "raised" and isinstance(val, BufferUnderflow):
                 acc.outcome("BufferUnderflow")
                 if kind == "ReadOnlySource" and src.negative_reads:
                     acc.add("negative_read_calls")
